@@ -382,8 +382,9 @@ pub fn dispatch(f: &[&str]) -> String {
         "transport.stub" => crate::transports::stub(f[1], f[2], f[3]),
         "transport.file" => crate::transports::file(f[1], f[2], f[3]),
         "transport.sendmail" => crate::transports::sendmail(f[1], f[2], f[3], f[4]),
-        x if x.starts_with("c19.") || x == "msg.full" => crate::misc::dispatch(f),
+        x if x.starts_with("c19.") || x == "msg.full" || x == "msg.own_typed" => crate::misc::dispatch(f),
         "dkim.sign" => crate::dkim::sign(f),
+        "dkim.resign" => crate::dkim::resign(f),
         "mime.format" => crate::mime::format(f[1]),
         "mime.mutate_after_format" => crate::mime::mutate_after_format(),
         "mime.threads" => {
